@@ -575,6 +575,8 @@ class DynDiGraph(nx.DiGraph):
                 app[-1] = [app[-1][0], t[1]]
                 if app[-1][0] + 1 in self.time_to_edge and (u, v, "+") in self.time_to_edge[app[-1][0] + 1]:
                     del self.time_to_edge[app[-1][0] + 1][(u, v, "+")]
+                # the one-instant interval may have been closed at t: it goes on now
+                self.time_to_edge.get(t[0], {}).pop((u, v, "-"), None)
 
             else:
                 if t[0] <= max_end < t[1]:
